@@ -773,9 +773,18 @@ impl Gen {
             }
             .min(b)
         };
-        let mut funds = vec![coin(amt, lp)];
+        let mut funds = vec![coin(amt, lp.clone())];
         if self.rng.chance(1, 40) {
             funds.push(coin(3, "uom"));
+        }
+        // a single coin that is not this pool's LP token: a pool asset, or another pool's LP token;
+        // small enough that the contract's own locked LP could cover a burn
+        if self.rng.chance(1, 25) {
+            let others: Vec<String> = Self::lp_denoms(c).into_iter().filter(|d| *d != lp).collect();
+            let d = if !others.is_empty() && self.rng.chance(1, 2) { self.rng.pick(&others).clone() } else { self.rng.pick(&p.pool_info.asset_denoms).clone() };
+            let have = bal(&c.obs.bal, &sender, &d);
+            let a = (self.rng.range(1, 1000) as u128).min(have.max(1));
+            funds = vec![coin(a, d)];
         }
         Op::Pm {
             sender,
